@@ -194,7 +194,7 @@ theorem request_image_small (r : Request) (h : r.Encodable) (hstd : ∀ fc d, r 
   | custom fc d => exact absurd rfl (hstd fc d)
   | writeMultipleCoils a c =>
     have := h.1
-    simp only [Request.image, List.length_append, List.length_take, List.length_cons, List.length_nil, be16_length]
+    simp only [Request.image, List.length_append, Coils.wire_length, List.length_cons, List.length_nil, be16_length]
     omega
   | writeMultipleRegisters a d =>
     have : d.data.length ≤ 255 := hdata
